@@ -63,7 +63,8 @@ func c01RunCase(c *Ctx, raw []byte) string {
 // the decoder has seen vendor extensions, unknown members, a $ref and a $schema.
 var c01Poison = []byte(`{"x-poison":{"p":[1]},"poison":"p","$ref":"#/definitions/poison","$schema":"http://poison.example/schema#","title":"poison","required":true,"description":5,"type":[5],"name":5,"get":5,"/p":5,"200":5,"url":5,"swagger":5,"in":5}`)
 
-func c01Exec(c *Ctx, cs docCase, parsed interface{}) string {
+func c01Exec(c *Ctx, cs docCase, parsed interface{}) (outcome string) {
+	defer c.guardCase("json-roundtrip", cs, &outcome)
 	feat := func() map[string]string {
 		return map[string]string{"kind": cs.Kind, "target": cs.Target}
 	}
